@@ -5,7 +5,8 @@
    LinearOperator.__getitem__ and the per-class index arithmetic of _get_indices / _getitem. *)
 From Coq Require Import List ZArith Bool Arith Lia.
 Import ListNotations.
-Require Import C03.Model C03.Proofs C03.ProofsSlice C03.ProofsSize C03.ProofsClass C03.ProofsCat C03.ProofsDiag C03.ProofsFront C03.ProofsFront2 C03.ProofsGather.
+Require Import C03.Model C03.Proofs C03.ProofsSlice C03.ProofsSize C03.ProofsClass C03.ProofsCat C03.ProofsDiag C03.ProofsFront C03.ProofsFront2 C03.ProofsGather
+  C03.ProofsAbsorbed C03.ProofsLone C03.ProofsPinned C03.ProofsInterp.
 Open Scope Z_scope.
 
 (* ===================================================================================== *)
@@ -105,6 +106,92 @@ Proof. vm_compute. repeat split; reflexivity. Qed.
 Theorem C03_gather_is_torch_index : forall t ts r,
   gather t ts = Some r -> torch_index_norm t (titems ts) = Some r.
 Proof. exact gather_is_torch_index. Qed.
+
+
+(* ===================================================================================== *)
+(** __getitem__ with tensor indices in the matrix positions *)
+
+(* _convert_indices_to_tensors followed by _get_indices (gather): for every rank and every index list whose tensor items
+   are 1-d of one common length L (what __getitem__ hands over after expand + reshape(-1)) and that is valid for the shape,
+   turning the slices into padded aranges, the ints into padded 0-d tensors and gathering IS torch indexing with the
+   original mixed index (shape: slices in order, the block of length L at the position torch puts it; every element) *)
+Theorem C03_convert_gather_is_torch_index : forall t its ps L,
+  plans_of (tshape t) its = Some ps -> flat1 L its -> existsb is_tensor its = true ->
+  match convert_indices_to_tensors (tshape t) its with Some ts => gather t ts | None => None end =
+  Some (result t ps [L]).
+Proof. exact convert_gather_flat. Qed.
+
+(* THE ABSORBED PATH (a tensor index in a batch position and one in a matrix position, or tensors in both matrix
+   positions): broadcast + flatten, _convert_indices_to_tensors, _get_indices, view back — for every rank >= 2, any number of
+   mutually broadcasting tensor indices of any rank, ints (negative ones included) and slices in the other positions,
+   operators without an empty dimension: the repaired __getitem__ returns exactly the torch result *)
+Theorem C03_getitem_absorbed_fixed : forall t idx index r,
+  (2 <= length (tshape t))%nat -> Forall (fun n => (0 < n)%nat) (tshape t) ->
+  spec_expand (length (tshape t)) idx = Some index ->
+  absorbed_idx (length (tshape t)) index = true ->
+  torch_index t idx = Some r ->
+  getitem_model Fixed false t idx = Some r.
+Proof. exact getitem_fixed_absorbed. Qed.
+
+(* a LONE tensor index in the row or the column position (no tensor in the batch positions; the other matrix index an int
+   or a slice): the non-absorbed path with int -> unit slice + squeeze returns the torch result; for `op[.., i, T]` the
+   tensor must be 1-d (lone_ok), because squeeze(-2) would otherwise address a dimension of the block *)
+Theorem C03_getitem_lone_tensor_fixed : forall t idx index r,
+  (2 <= length (tshape t))%nat ->
+  spec_expand (length (tshape t)) idx = Some index ->
+  existsb is_tensor (firstn (length (tshape t) - 2) index) = false ->
+  xorb (is_tensor (nth (length (tshape t) - 2) index full)) (is_tensor (nth (length (tshape t) - 1) index full)) = true ->
+  lone_ok (nth (length (tshape t) - 2) index full) (nth (length (tshape t) - 1) index full) = true ->
+  torch_index t idx = Some r ->
+  getitem_model Fixed false t idx = Some r.
+Proof. exact getitem_fixed_lone. Qed.
+
+(* ALL INDEX KINDS TOGETHER, debug setting on or off: for every rank >= 2, every tensor without an empty dimension and
+   every index tuple (ints incl. negative, slices with any bounds and positive step, one Ellipsis, missing trailing
+   dimensions, lists, 0-d / 1-d / higher-rank mutually broadcasting tensor indices in any positions) that torch accepts
+   and that is not `int in the row position + a lone tensor of rank <> 1 in the column position` (in_quantifier), the
+   repaired LinearOperator.__getitem__ over an operator whose _getitem / _get_indices are torch indexing returns exactly
+   the torch result: same shape, same placement of the advanced-index block, same elements; in debug mode the shape
+   assertion against _compute_getitem_size passes *)
+Theorem C03_getitem_fixed : forall debug t idx index r,
+  (2 <= length (tshape t))%nat -> Forall (fun n => (0 < n)%nat) (tshape t) ->
+  spec_expand (length (tshape t)) idx = Some index ->
+  in_quantifier (length (tshape t)) index = true ->
+  torch_index t idx = Some r ->
+  getitem_model Fixed debug t idx = Some r.
+Proof. exact getitem_fixed_all. Qed.
+
+(* debug mode never changes a result that is the torch result (either variant of the front end) *)
+Theorem C03_getitem_debug_irrelevant : forall v t idx r,
+  torch_index t idx = Some r -> getitem_model v false t idx = Some r -> getitem_model v true t idx = Some r.
+Proof. exact getitem_debug_irrelevant. Qed.
+
+(* the PINNED __getitem__ on the absorbed path returns the torch result whenever neither matrix index is a python int
+   and either all tensor indices are 1-d or the advanced-index block moves to the front *)
+Theorem C03_getitem_absorbed_pinned_partial : forall debug t idx index r,
+  (2 <= length (tshape t))%nat -> Forall (fun n => (0 < n)%nat) (tshape t) ->
+  spec_expand (length (tshape t)) idx = Some index ->
+  absorbed_idx (length (tshape t)) index = true ->
+  is_int (nth (length (tshape t) - 2) index full) = false -> is_int (nth (length (tshape t) - 1) index full) = false ->
+  rank1_tensors index \/ is_moved_to_start index = true ->
+  torch_index t idx = Some r ->
+  getitem_model Pinned debug t idx = Some r.
+Proof. exact getitem_pinned_absorbed_partial. Qed.
+
+(* ... and the two pinned defects outside that domain (known findings C03-absorbed-int-row, C03-absorbed-rank2-trailing-dim):
+   op[[1,0], 1, [2,3]] on a 2 x 3 x 4 operator has shape (2,1) instead of (2,) (debug on: error);
+   op[:, R, C, :] with rank-2 index tensors on a 2 x 2 x 3 x 2 operator raises a view error; the repaired code is right *)
+Theorem C03_getitem_absorbed_pinned_refuted :
+  let t1 := mkT [2;3;4]%nat (map Z.of_nat (seq 0 24)) in
+  let i1 := [RList [1;0]; RItem (IInt 1); RList [2;3]] in
+  let t2 := mkT [2;2;3;2]%nat (map Z.of_nat (seq 0 24)) in
+  let i2 := [RItem full; RItem (ITensor [2;1]%nat [0;1]); RItem (ITensor [1;2]%nat [1;2]); RItem full] in
+  (torch_index t1 i1 = Some (mkT [2]%nat [18;7]) /\
+   getitem_model Pinned false t1 i1 = Some (mkT [2;1]%nat [18;7]) /\ getitem_model Pinned true t1 i1 = None /\
+   getitem_model Fixed true t1 i1 = Some (mkT [2]%nat [18;7])) /\
+  (torch_index t2 i2 = Some (mkT [2;2;2;2]%nat [2;3;4;5;8;9;10;11;14;15;16;17;20;21;22;23]) /\
+   getitem_model Pinned false t2 i2 = None /\ getitem_model Fixed true t2 i2 = torch_index t2 i2).
+Proof. vm_compute. repeat split; reflexivity. Qed.
 
 (* ===================================================================================== *)
 (** utils/getitem.py *)
@@ -231,6 +318,27 @@ Theorem C03_cat_split_slice_pinned_refuted :
     seg (concat pieces) (Z.to_nat lo) (Z.to_nat hi).
 Proof. exact split_slice_pinned_refuted. Qed.
 
+
+(* InterpolatedLinearOperator._get_indices: the double sum over the interpolation points of the row and of the column is
+   entry (row, col) of  W_left K W_right^T  (W[x] = sum of the weights whose index is x; any number of points, duplicates
+   allowed; indices inside the base operator) *)
+Theorem C03_interp_get_indices : forall (K : Z -> Z -> Z) li lv ri rv m n,
+  Forall (fun a => 0 <= a < Z.of_nat m) li -> Forall (fun b => 0 <= b < Z.of_nat n) ri ->
+  interp_get_indices K li lv ri rv =
+  zsum_upto m (fun x => zsum_upto n (fun y => interp_w li lv x * K x y * interp_w ri rv y)).
+Proof. exact interp_get_indices_correct. Qed.
+
+(* the default LinearOperator._get_indices (one interpolation point per side, weight 1) selects entry (row, col) *)
+Corollary C03_default_get_indices : forall (K : Z -> Z -> Z) r c, interp_get_indices K [r] [1] [c] [1] = K r c.
+Proof. exact default_get_indices_correct. Qed.
+
+(* InterpolatedLinearOperator._diagonal over a RootLinearOperator with dense root R: the shortcut
+   (left_interp(W_l, R) * left_interp(W_r, R)).sum(-1) is the interpolated entry of K = R R^T (RootLinearOperator._get_indices)
+   taken with the LEFT points for the row and the RIGHT points for the column *)
+Theorem C03_interp_root_diagonal : forall (R : Z -> Z -> Z) rk li lv ri rv,
+  interp_root_diag R rk li lv ri rv = interp_get_indices (root_get_indices R rk) li lv ri rv.
+Proof. exact interp_root_diag_correct. Qed.
+
 (* ===================================================================================== *)
 (** non-vacuity: the hypotheses are satisfiable on concrete non-trivial inputs *)
 
@@ -274,4 +382,29 @@ Example C03_ex_gather : (* x[[0,1],[2,0]] on a 2 x 3 matrix *)
 Proof. vm_compute. reflexivity. Qed.
 
 Example C03_ex_int_slice : in_range 4 (-4) = true /\ slice_sel (int_as_slice Pinned (-4)) 4 = Some (0, 1).
+Proof. split; vm_compute; reflexivity. Qed.
+
+Example C03_ex_absorbed : (* x[[1,0], -2:, [2,3]] on a 2 x 3 x 4 tensor satisfies the hypotheses of C03_getitem_fixed (absorbed path) *)
+  let t := mkT [2;3;4]%nat (map Z.of_nat (seq 0 24)) in
+  let idx := [RList [1;0]; RItem (ISlice (Some (-2)) None None); RList [2;3]] in
+  Forall (fun n => (0 < n)%nat) (tshape t) /\
+  (exists index, spec_expand 3 idx = Some index /\ absorbed_idx 3 index = true /\ in_quantifier 3 index = true /\
+                 is_int (nth 1 index full) = false /\ is_int (nth 2 index full) = false /\ rank1_tensors index) /\
+  torch_index t idx = Some (mkT [2;2]%nat [18;22;7;11]) /\
+  getitem_model Pinned true t idx = Some (mkT [2;2]%nat [18;22;7;11]).
+Proof.
+  split; [repeat constructor|]. split; [eexists; vm_compute; repeat split; try reflexivity; repeat constructor|].
+  vm_compute. split; reflexivity.
+Qed.
+
+Example C03_ex_lone : (* x[:, 1, [2,0]] on a 2 x 3 x 4 tensor: a lone 1-d tensor in the column position, python int in the row position *)
+  let t := mkT [2;3;4]%nat (map Z.of_nat (seq 0 24)) in
+  let idx := [RItem full; RItem (IInt 1); RList [2;0]] in
+  (exists index, spec_expand 3 idx = Some index /\ in_quantifier 3 index = true /\ absorbed_idx 3 index = false) /\
+  torch_index t idx = Some (mkT [2;2]%nat [6;4;18;16]) /\ getitem_model Fixed true t idx = torch_index t idx.
+Proof. vm_compute. split; [eexists; repeat split; reflexivity|split; reflexivity]. Qed.
+
+Example C03_ex_interp : (* two interpolation points per side, a duplicate index on the left *)
+  interp_get_indices (fun x y => 10 * x + y) [1;1] [2;3] [0;2] [1;-1] = (2 + 3) * (10 - 12) /\
+  interp_w [1;1] [2;3] 1 = 5.
 Proof. split; vm_compute; reflexivity. Qed.
